@@ -94,7 +94,7 @@ def run(ctx):
     sct = []
     for v in F.fns_in('src/client/mod.rs'):
         for m in prims.mutations(v):
-            if m.kind == 'assign' and show(m.path) == 'self.successful_connect_time':
+            if (m.kind == 'assign' or m.method == 'take') and show(m.path) == 'self.successful_connect_time':
                 sct.append((v, m))
     for v, m in sct:
         if show(m.rv).startswith('Option::Some{'):
